@@ -79,6 +79,36 @@ func summariseInit(p *packages.Package, fd *ast.FuncDecl) (steps []sgprStep, lan
 				case *ast.BlockStmt:
 					for _, st := range x.List {
 						walk(st, ctx)
+						// a guard clause `if g { ...; continue / return }` puts the rest of the block under !g
+						if is, ok := st.(*ast.IfStmt); ok && is.Else == nil && is.Init == nil && len(is.Body.List) > 0 {
+							leaves := false
+							switch t := is.Body.List[len(is.Body.List)-1].(type) {
+							case *ast.ReturnStmt:
+								leaves = true
+							case *ast.BranchStmt:
+								leaves = t.Tok == token.CONTINUE || t.Tok == token.BREAK
+							}
+							if leaves {
+								cond, neg := ast.Expr(is.Cond), true
+								for {
+									if p, ok := cond.(*ast.ParenExpr); ok {
+										cond = p.X
+										continue
+									}
+									if u, ok := cond.(*ast.UnaryExpr); ok && u.Op == token.NOT {
+										cond, neg = u.X, !neg
+										continue
+									}
+									break
+								}
+								c := normExpr(types.ExprString(cond))
+								if neg {
+									ctx += "[!" + c + "]"
+								} else {
+									ctx += "[" + c + "]"
+								}
+							}
+						}
 					}
 				case *ast.IfStmt:
 					// `if !(c) { B } else { A }` is `if c { A } else { B }`
